@@ -261,6 +261,40 @@ def run_job(group, harness, mode="full", timeout_s=600, mem_gb=12, unwind=None, 
     return res
 
 
+class _MemGate:
+    """admit a job only while the sum of the declared memory caps of running jobs fits the budget"""
+
+    def __init__(self, budget_gb):
+        self.budget = budget_gb
+        self.used = 0.0
+        self.cv = threading.Condition()
+
+    def acquire(self, gb):
+        gb = min(gb, self.budget)
+        with self.cv:
+            while self.used + gb > self.budget:
+                self.cv.wait()
+            self.used += gb
+
+    def release(self, gb):
+        gb = min(gb, self.budget)
+        with self.cv:
+            self.used -= gb
+            self.cv.notify_all()
+
+
+_gate = _MemGate(float(os.environ.get("VERIF_MEM_GB", "52")))
+
+
+def _gated(j):
+    gb = j.get("mem_gb", 12) * 0.75  # caps are rarely reached; budget three quarters of each
+    _gate.acquire(gb)
+    try:
+        return run_job(**j)
+    finally:
+        _gate.release(gb)
+
+
 def run_jobs(jobs, workers=None):
     """jobs: list of dict(group=Group, harness=str, **kw). Heaviest first."""
     workers = workers or int(os.environ.get("VERIF_JOBS", "14"))
@@ -275,5 +309,5 @@ def run_jobs(jobs, workers=None):
             flags = ["-Z", "stubbing"] if g.stubbing else []
             g.ensure_warm(j["harness"], flags)
     with ThreadPoolExecutor(max_workers=workers) as ex:
-        futs = [ex.submit(run_job, **j) for j in jobs]
+        futs = [ex.submit(_gated, j) for j in jobs]
         return [f.result() for f in futs]
